@@ -38,6 +38,21 @@ impl PartialOrd for StreamId {
     fn partial_cmp(&self, other: &StreamId) -> Option<core::cmp::Ordering> { self.0.partial_cmp(&other.0) }
 }
 
+pub mod settings_frame {
+    /// frame::Settings reduced to the parameters send.rs reads (accessors are field reads in /repo).
+    pub struct Settings {
+        pub initial_window_size: Option<u32>,
+        pub enable_push: Option<bool>,
+        pub enable_connect_protocol: Option<bool>,
+    }
+}
+
+impl settings_frame::Settings {
+    pub fn initial_window_size(&self) -> (r: Option<u32>) ensures r == self.initial_window_size { self.initial_window_size }
+    pub fn is_push_enabled(&self) -> (r: Option<bool>) ensures r == self.enable_push { self.enable_push }
+    pub fn is_extended_connect_protocol_enabled(&self) -> (r: Option<bool>) ensures r == self.enable_connect_protocol { self.enable_connect_protocol }
+}
+
 pub struct Send {
     pub next_stream_id: Result<StreamId, StreamIdOverflow>,
     pub max_stream_id: StreamId,
@@ -152,6 +167,9 @@ impl Send {
     //@spec         old(self).prioritize.flow.a() + old(stream).send_flow.a() <= 0x7fff_ffff,
     //@spec     ensures
     //@spec         final(stream).send_flow.w() == old(stream).send_flow.w() && final(self).prioritize.flow.w() == old(self).prioritize.flow.w(),
+    //@spec         final(stream).send_flow.a() >= 0 && final(self).prioritize.flow.a() >= 0,
+    //@spec         final(self).prioritize.flow.a() + final(stream).send_flow.a() <= old(self).prioritize.flow.a() + old(stream).send_flow.a(),
+    //@spec         *final(self) == (Send { prioritize: final(self).prioritize, ..*old(self) }),
     //@spec         // C17: a stream that is already reset gets no second RST_STREAM: nothing happens at all
     //@spec         old(stream).state.is_reset_spec() ==> *final(stream) == *old(stream) && final(self).prioritize == old(self).prioritize,
     //@spec         // otherwise the state records exactly (id, code, initiator) and every waiter is woken
@@ -218,6 +236,7 @@ impl Send {
     //@spec         old(self).prioritize.flow.a() + old(stream).send_flow.a() <= 0x7fff_ffff,
     //@spec     ensures
     //@spec         final(self).prioritize.flow.w() == old(self).prioritize.flow.w(),
+    //@spec         *final(self) == (Send { prioritize: final(self).prioritize, ..*old(self) }),
     //@spec         // C09: a WINDOW_UPDATE that overflows the stream window resets THAT stream with FLOW_CONTROL_ERROR
     //@spec         (!(old(stream).state.send_closed() && old(stream).buffered_send_data == 0) && old(stream).send_flow.w() + sz > 0x7fff_ffff) ==> (
     //@spec             r == Err::<(), Reason>(Reason::FLOW_CONTROL_ERROR)
@@ -225,6 +244,49 @@ impl Send {
     //@spec         // otherwise the window grows by exactly sz (or the update is ignored by a stream that can never send again)
     //@spec         !(!(old(stream).state.send_closed() && old(stream).buffered_send_data == 0) && old(stream).send_flow.w() + sz > 0x7fff_ffff) ==> r.is_ok(),
     //@spec         r.is_ok() && !(old(stream).state.send_closed() && old(stream).buffered_send_data == 0) ==> final(stream).send_flow.w() == old(stream).send_flow.w() + sz,
+    //@spec         final(stream).send_flow.a() >= 0 && final(self).prioritize.flow.a() >= 0,
+    //@spec         final(self).prioritize.flow.a() + final(stream).send_flow.a() <= old(self).prioritize.flow.a() + old(stream).send_flow.a(),
+    //@end
+
+    /// what apply_remote_settings must do to ONE stream when the peer lowers INITIAL_WINDOW_SIZE by `dec`
+    /// (RFC 9113 6.9.2): every stream that may still emit DATA has its window moved by exactly -dec (possibly below
+    /// zero); capacity beyond the new window is taken back; only a stream that can never send again may be skipped.
+    pub open spec fn lowered(s0: Stream, s1: Stream, dec: int) -> bool {
+        if s0.state.send_closed() && s0.buffered_send_data == 0 {
+            s1 == s0
+        } else {
+            &&& s1.send_flow.w() == s0.send_flow.w() - dec
+            &&& s1.send_flow.a() == (if s0.send_flow.a() <= pos(s0.send_flow.w() - dec) { s0.send_flow.a() } else { pos(s0.send_flow.w() - dec) })
+        }
+    }
+
+    //@extract src/proto/streams/send.rs Send::apply_remote_settings
+    //@attr #[verifier::exec_allows_no_decreases_clause]
+    //@subst apply_remote_settings<B>(=>apply_remote_settings(
+    //@subst settings: &frame::Settings=>settings: &settings_frame::Settings
+    //@subst buffer: &mut Buffer<Frame<B>>=>buffer: &mut Buffer
+    //@subst_re store\.try_for_each\(\|mut stream\| \{\s*let stream = &mut \*stream;=>store.iter_begin(); let ghost self0 = *self; loop invariant *self == (Send { prioritize: self.prioritize, ..self0 }), self0.init_window_sz == val && settings.initial_window_size == Some(val) && (settings.enable_connect_protocol is Some ==> self0.is_extended_connect_protocol_enabled == settings.enable_connect_protocol->Some_0), store.held() == old(store).held(), self.prioritize.flow.a() + store.sum() + total_reclaimed == old(self).prioritize.flow.a() + old(store).sum(), self.prioritize.flow.a() >= 0 && store.sum() >= 0, self.prioritize == old(self).prioritize, old(self).prioritize.flow.a() + old(store).sum() <= 0x7fff_ffff, sz_ok(dec), { let mut stream = match store.iter_next() { Some(s) => s, None => { break; } }; let ghost s0 = stream;
+    //@subst_re return Ok\(\(\)\);=>proof { assert(Send::lowered(s0, stream, dec as int)); } store.put_back(stream); continue;
+    //@subst_re stream\s*\.send_flow\s*\.dec_send_window\(dec\)\s*\.map_err\(proto::Error::library_go_away\)\?;=>match stream.send_flow.dec_send_window(dec) { Ok(()) => {}, Err(e) => { store.put_back(stream); return Err(Error::GoAway(e, Initiator::Library)); } }
+    //@subst_re stream\s*\.send_flow\s*\.claim_capacity\(reclaim\)\s*\.map_err\(proto::Error::library_go_away\)\?;=>match stream.send_flow.claim_capacity(reclaim) { Ok(()) => {}, Err(e) => { assert(false); return Err(Error::GoAway(e, Initiator::Library)); } }
+    //@subst_re Ok::<_, proto::Error>\(\(\)\)\s*\}\)\?;=>proof { assert(Send::lowered(s0, stream, dec as int)); } store.put_back(stream); }
+    //@subst_re store\.try_for_each\(\|mut stream\| \{\s*self\.recv_stream_window_update\(inc, buffer, &mut stream, counts, task\)\s*\.map_err\(Error::library_go_away\)\s*\}\)\?;=>store.iter_begin(); let ghost self0 = *self; loop invariant *self == (Send { prioritize: self.prioritize, ..self0 }), self0.init_window_sz == val && settings.initial_window_size == Some(val) && (settings.enable_connect_protocol is Some ==> self0.is_extended_connect_protocol_enabled == settings.enable_connect_protocol->Some_0), store.held() == old(store).held(), self.prioritize.flow.a() + store.sum() <= old(self).prioritize.flow.a() + old(store).sum(), self.prioritize.flow.a() >= 0 && store.sum() >= 0, self.prioritize.flow.w() == old(self).prioritize.flow.w(), old(self).prioritize.flow.a() + old(store).sum() <= 0x7fff_ffff, sz_ok(inc) && inc >= 1, { let mut stream = match store.iter_next() { Some(s) => s, None => { break; } }; let ghost s0 = stream; let r = self.recv_stream_window_update(inc, buffer, &mut stream, counts, task); proof { assert(r.is_ok() && !(s0.state.send_closed() && s0.buffered_send_data == 0) ==> stream.send_flow.w() == s0.send_flow.w() + inc); } match r { Ok(()) => { store.put_back_any(stream); }, Err(e) => { store.put_back_any(stream); return Err(Error::GoAway(e, Initiator::Library)); } } }
+    //@ret r
+    //@spec     requires
+    //@spec         old(self).init_window_sz <= 0x7fff_ffff,
+    //@spec         settings.initial_window_size is Some ==> settings.initial_window_size->Some_0 <= 0x7fff_ffff,   // Settings::load
+    //@spec         old(self).prioritize.pool_inv(*old(store), 0),
+    //@spec     ensures
+    //@spec         // C14: what the peer's SETTINGS say governs what is sent from now on
+    //@spec         settings.initial_window_size is Some ==> final(self).init_window_sz == settings.initial_window_size->Some_0,
+    //@spec         settings.initial_window_size is None ==> final(self).init_window_sz == old(self).init_window_sz,
+    //@spec         r.is_ok() && settings.enable_push is Some ==> final(self).is_push_enabled == settings.enable_push->Some_0,
+    //@spec         // C02/C16: the connection window is untouched; on a decrease all capacity is conserved (what streams lose is
+    //@spec         // in the pool or re-assigned); every path hands its stream back
+    //@spec         final(self).prioritize.flow.w() == old(self).prioritize.flow.w(),
+    //@spec         final(store).held() == old(store).held(),
+    //@spec         (r.is_ok() && settings.initial_window_size is Some && settings.initial_window_size->Some_0 <= old(self).init_window_sz) ==>
+    //@spec             final(self).prioritize.flow.a() + final(store).sum() == old(self).prioritize.flow.a() + old(store).sum(),
     //@end
 }
 
